@@ -261,7 +261,10 @@ impl<'p, W, R, T> CompilationScope<'p, W, R, T> {
             });
         }
         let forward_requirements: Vec<_> = if let XStaticFunction::UserFunction(func) = &func {
-            func.forward_requirements.iter().cloned().collect()
+            // a fixed order: the first unfulfilled requirement is the one an error message names
+            let mut reqs: Vec<_> = func.forward_requirements.iter().cloned().collect();
+            reqs.sort_by_key(|r| (r.ancestor_height.0, r.ref_idx));
+            reqs
         } else {
             Default::default()
         };
